@@ -78,6 +78,8 @@ Definition ev_name (o : obs) (th : tid) (e : event) : option name :=
   | ENewInst _ n | ERegAdd _ n | ESpawn _ n | ERegGet n _ | EDoneGet n _ | EStartChecked n _ | EStopChecked n _
   | ERestartChecked n _ | ERestartStopped n => Some n
   | EApiBegin (OpStart n) | EApiBegin (OpStop n) | EApiBegin (OpRestart n) => Some n
+  (* the shutdown procedure concerns every name, also when an instance goroutine runs it (exit_on_* trigger) *)
+  | EShutdownCall | EShutdownBegin | EShutdownOrder _ | EShutdownEnd | EShutdownUnlocked | EExitTrigger _ | EExitCodeSet _ => None
   | EDepWait _ _ | EDepDone _ _ | ELookupMid _ => option_map (fun i => o_nm (oi_get o i)) (get th (o_th o))
   | _ => option_map (fun i => o_nm (oi_get o i)) (ev_inst o th e)
   end.
